@@ -494,7 +494,7 @@ class ApplyBatchImpl:
     ) -> None:
         existing = self.columns[column_name]
         existing_transfer: Dict[str, Any] = self.column_transfers[column_name]
-        if name is not None and name != column_name:
+        if name is not None and name != existing.name:
             # note that we don't change '.key' - we keep referring
             # to the renamed column by its old key in _create().  neat!
             existing.name = name
